@@ -333,7 +333,7 @@ class Gen:
             else:
                 self.stat('alias:obj')
                 self.emit(self.pick(['aset %d %s %s' % (a, self.pick(SETTERS), self.pick(GETTERS)), 'aparse %d' % a, 'aparsebg %d %s' % (a, self.pick(['href', 'protocol', 'pathname', 'search', 'path'])), 'aparseb %d %s' % (a, self.arg(self.pick(RELS))),
-                                     'parse %d %s s%d' % (a, self.arg(self.pick(RELS)), a), 'sp %d aparse %s' % (a, self.arg(self.pick(['a', 'q', 'next', 'x']))), 'sp %d aset2' % a, 'sp %d selfsafea' % a]))
+                                     'parse %d %s s%d' % (a, self.arg(self.pick(RELS)), a), 'sp %d aparse %s' % (a, self.arg(self.pick(['a', 'q', 'next', 'x']))), 'sp %d aset2' % a, 'sp %d aidx %s %d %d' % (a, self.pick(['remove', 'remove2', 'del', 'del2', 'set']), self.r.randrange(5), self.r.randrange(5)), 'sp %d selfsafea' % a]))
         if self.r.randrange(12) == 0:
             # "follow the next parameter": the input of parse() is a view of the URL's own search parameter
             self.stat('alias:parse-own-param')
@@ -379,6 +379,16 @@ class Gen:
                 ln = self.pick(['L' * 40, 'k', '\u00e4' * 20])
                 for v in ('1', '2', '3'): self.emit('psp 0 append %s %s' % (self.arg(ln), self.arg(v)))
             self.emit('psp 0 %s' % self.pick(['aparse %s' % self.arg(self.pick(['next', 'a', 'q', 'b'])), 'aappend', 'aset', 'aset2', 'aset2', 'adel', 'adel2', 'selfsafea']))
+        if self.r.randrange(6) == 0:
+            # arguments that are views of the i-th pair's name / the j-th pair's value of the list being edited, for EVERY
+            # mutator and every position (a pair that is kept, one that is removed, the first, the last), on lists with
+            # duplicates interleaved with other names
+            self.stat('alias:psp-indexed')
+            q = self.pick(['a=1&b=2&a=3&b=4', 'a=1&a=2&b=3&a=4&c=5', 'x=1&y=2&x=1&z=3&x=2', 'k=' + 'v' * 30 + '&j=2&k=' + 'w' * 30 + '&k=3&m=4', 'n=1', 'a=1&b=1&c=1&a=1'])
+            self.emit('psp 0 ctor %s' % self.arg(q))
+            for _ in range(self.r.randrange(1, 4)):
+                self.emit('psp 0 aidx %s %d %d' % (self.pick(['remove', 'remove', 'remove2', 'del', 'del2', 'set', 'append', 'has2']), self.r.randrange(6), self.r.randrange(6)))
+            self.emit('psp 0 sort')
             self.emit('psp 0 sort')
         if self.r.randrange(8) == 0:
             # LONG lists (beyond the small-range thresholds of sorting algorithms: 16, 32, 64) with few distinct names and
@@ -793,7 +803,9 @@ class Gen:
             else:
                 s = self.pick(['::%x', '1:%x::', '%x::1', '1:2:3:4:5:6:7:%x']) % w
         else:
-            s = ''.join(self.pick('01f:.g') for _ in range(self.r.randrange(0, 12)))
+            # (with the neighbours of the hex-digit classes under case folding and bit masks: C0 controls that `| 0x20` maps
+            # onto digits, the characters just outside 0-9 / A-F / a-f)
+            s = ''.join(self.pick(['0', '1', 'f', ':', '.', 'g', '0', '1', 'f', ':', ':', '\x11', '\x19', '\x10', '/', '@', 'G', '`', 'F', 'A', '\x01', '!']) for _ in range(self.r.randrange(0, 12)))
         if s and self.r.randrange(8) == 0:
             i = self.r.randrange(len(s)); s = s[:i] + alias(s[i], self.pick(ALIAS_OFFSETS)) + s[i+1:]
         self.emit('ipv6 %s' % U(units(s, 32)))
@@ -840,7 +852,7 @@ class Gen:
             t = ''.join(self.pick(['a', ' ', '%', '/', '?', '#', "'", '"', '<', '`', '{', '|', '\\', '^', ':', '@', '=', '&', '+', '$', ',', ';', '[', ']', '~', '!', '(', '*', '\x00', '\x1f', '\x7f'] + BOUNDARY) for _ in range(self.r.randrange(0, 8)))
             self.emit('penc %s %s' % (self.pick(['fragment', 'query', 'squery', 'path', 'rawpath', 'posixpath', 'userinfo', 'component']), self.arg(t, e)))
         else:
-            alpha = ['%', '4', '1', 'C', '3', 'A', '9', 'E', '2', '8', 'z', 'g', 'F', '0', 'f', 'c', '\u0134', '\u0131', '\u0141', '\u0161', '\uff41', '\U0001f431', '%\u0134\u0131', '%4\u0131', '\u00e9', 'a', '\U0001f4a9', '%C3%A9', '%E2%82%AC', '%F0%9F%92%A9', '%FF', '%80', '%C3', '%E2%82', '%', '%4', '%zz', '%C3%zz', '%C3%', '%41', '%00', '%7F', '%c3%a9']
+            alpha = ['%', '4', '1', 'C', '3', 'A', '9', 'E', '2', '8', 'z', 'g', 'F', '0', 'f', 'c', '%\x11\x12', '%\x10\x19', '%1\x11', '%/:', '%@G', '%`g', '%\x01\x06', '%!&', '\u0134', '\u0131', '\u0141', '\u0161', '\uff41', '\U0001f431', '%\u0134\u0131', '%4\u0131', '\u00e9', 'a', '\U0001f4a9', '%C3%A9', '%E2%82%AC', '%F0%9F%92%A9', '%FF', '%80', '%C3', '%E2%82', '%', '%4', '%zz', '%C3%zz', '%C3%', '%41', '%00', '%7F', '%c3%a9']
             t = ''.join(self.pick(alpha) for _ in range(self.r.randrange(0, 8)))
             self.emit('pdec %s' % self.arg(t, e))
     def s_pct_exh(self, k):
